@@ -53,6 +53,10 @@ RULE = (
     "connection are counted, not judged). A few cases make their searches through the command API "
     "(client.execute(GlobalSearchCommand / RoomSearchCommand / UserSearchCommand)), alone or mixed with the manager's "
     "methods; these emit no SearchRequestSentEvent, the harness records the creation when the command returns. "
+    "In ~40 % of the random cases (and 13 systematic ones) the application registers TWO listeners of "
+    "SearchRequestRemovedEvent after the recording one: the first suspends (1-3 loop steps via sleep(0), or 5 / 50 ms) "
+    "and then records 'finished', the second records its delivery; per reported removal each must be entered exactly "
+    "once and run to completion, none cancelled (judged at the quiescent end of the run). "
     "Every other step is anchored at an absolute virtual offset, at "
     "creation+dt or at deadline+dt of a scripted request; dt=0 anchors run k=0..4 loop iterations after the "
     "loop.call_at(deadline) handle (k=0 runs before the library's timer callback, k>=2 after it). The first 284 cases "
@@ -118,11 +122,13 @@ MIN_OBS = {
     'quick': {'sequences': 950, 'requests_created': 1800, 'results_judged': 1000, 'removals_judged': 1200,
               'same_instant_races': 800, 'timer_ops': 500, 'wishlist_rounds': 400, 'timeout0_judged': 150,
               'sent_reactions': 250, 'relogins': 150, 'requests_live_across_relogin': 200,
-              'requests_created_after_relogin': 300, 'command_api_requests': 40},
+              'requests_created_after_relogin': 300, 'command_api_requests': 40,
+              'removals_with_suspending_listeners': 500},
     'thorough': {'sequences': 39000, 'requests_created': 75000, 'results_judged': 50000, 'removals_judged': 55000,
                  'same_instant_races': 45000, 'timer_ops': 25000, 'wishlist_rounds': 19000, 'timeout0_judged': 10000,
                  'sent_reactions': 16000, 'relogins': 10000, 'requests_live_across_relogin': 12000,
-                 'requests_created_after_relogin': 20000, 'command_api_requests': 2500},
+                 'requests_created_after_relogin': 20000, 'command_api_requests': 2500,
+                 'removals_with_suspending_listeners': 30000},
 }
 SHARD_TIMEOUT = {'quick': 600, 'thorough': 5400}
 EXHAUSTIVE = {'quick': False, 'thorough': False}
@@ -141,6 +147,9 @@ WHAT_FAILS = {
     'result-missing-for-live-request': 'a delivered reply for a registered ticket produced no result event',
     'result-duplicated': 'one delivered reply produced more than one result event',
     'ticket-mismatch': 'the reported result carries another ticket than the request it is reported for',
+    'removal-listener-aborted': 'a listener of SearchRequestRemovedEvent that suspends was cancelled / never finished '
+                                '(e.g. the timeout task cancels itself while it delivers the event)',
+    'removal-listener-skipped': 'a registered listener of SearchRequestRemovedEvent was not called for a reported removal',
     'duplicate-live-ticket': 'two live requests share a ticket (the later one replaces the earlier one in the registry)',
     'duplicate-live-ticket:mixed-apis': 'a search made through the command API (client.ticket_generator) and one made '
                                         'through SearchManager (its own generator) get the same ticket while both are '
@@ -303,6 +312,14 @@ def _systematic() -> list[dict]:
     out.append(_base(steps=[_search(), cmd('net', {'abs': 1.0}), dict(copy.deepcopy(late_reply), at={'abs': 2.0})]))
     out.append(_base(steps=[cmd('net', {'abs': 0.0}), _search('net', {'abs': 1.0}),
                             dict(copy.deepcopy(late_reply), at={'abs': 2.0})]))
+    # two application listeners of SearchRequestRemovedEvent, the first one suspends (appended last)
+    for susp in ('y1', 'y3', '5ms'):
+        for typ in ('net', 'room', 'user'):
+            out.append(_base(rm_listeners=susp, steps=[_search(typ)]))
+        out.append(_base(rm_listeners=susp, wishlist=['wish-0', 'wish-1'], rounds=2,
+                         steps=[{'k': 'wishlist', 'at': {'abs': 1.0}}]))
+    out.append(_base(rm_listeners='y2', steps=[_search(), _search('user', {'abs': 0.0}),
+                                               dict(copy.deepcopy(late_reply), at=_anchor('s0', 'deadline', 0.0))]))
     return out
 
 
@@ -460,6 +477,8 @@ def gen_random(seed: int, idx: int, nsteps: int) -> dict:
     no_timer = (sc['request_timeout'] == 0 and nsearch > 0) or (use_wish and sc['wishlist_request_timeout'] == 0)
     if no_timer:
         sc['tail'] = rng.choice([600, 7200])
+    if rng.random() < 0.4:
+        sc['rm_listeners'] = rng.choice(['y1', 'y2', 'y3', '5ms', '50ms'])
     return sc
 
 
@@ -673,6 +692,27 @@ class _Run:
         self.reqs[rid]['live_rt'] = False
         self.add('removed', rid=rid, ticket=req.ticket,
                  still_registered=self.client.searches.requests.get(req.ticket) is req)
+
+    # -- the application's own listeners of SearchRequestRemovedEvent (registered after on_removed) ---------
+    async def app_on_removed_first(self, ev):
+        rid = self.rid_of(ev.query)
+        self.add('rml', rid=rid, l=1, what='entered')
+        susp = self.script.get('rm_listeners') or 'y1'
+        try:
+            if susp.endswith('ms'):
+                await asyncio.sleep(int(susp[:-2]) / 1000.0)
+            else:
+                for _ in range(int(susp[1:])):
+                    await asyncio.sleep(0)
+        except asyncio.CancelledError:
+            self.add('rml', rid=rid, l=1, what='cancelled')
+            raise
+        self.add('rml', rid=rid, l=1, what='finished')
+
+    def app_on_removed_second(self, ev):
+        rid = self.rid_of(ev.query)
+        self.add('rml', rid=rid, l=2, what='entered')
+        self.add('rml', rid=rid, l=2, what='finished')
 
     def on_result(self, ev):
         req = ev.query
@@ -972,6 +1012,9 @@ class _Run:
         h.listen(E.SearchRequestSentEvent, self.app_on_sent_sync)      # same priority: run in registration order
         h.listen(E.SearchRequestSentEvent, self.app_on_sent_async)
         h.listen(E.SearchRequestRemovedEvent, self.on_removed)
+        if sc.get('rm_listeners'):
+            h.listen(E.SearchRequestRemovedEvent, self.app_on_removed_first)      # same priority: registration order
+            h.listen(E.SearchRequestRemovedEvent, self.app_on_removed_second)
         h.listen(E.SessionInitializedEvent, self.on_session_up)
         h.listen(E.SessionDestroyedEvent, self.on_session_lost)
         h.listen(E.SearchResultEvent, self.on_result)
@@ -1046,7 +1089,8 @@ def judge(run: _Run, out, res: dict) -> dict:
            'timer_ops_skipped': 0, 'steps_done': run.steps_done, 'steps_skipped': run.steps_skipped,
            'timer_rules_judged': 0, 'errors_attributed': 0, 'followup_not_reported': 0, 'sent_reactions': 0,
            'relogins': run.relogins, 'searches_failed_not_judged': run.searches_failed, 'requests_live_across_relogin': 0,
-           'requests_created_after_relogin': 0, 'command_api_requests': 0, 'removed_through_reused_ticket': 0}
+           'requests_created_after_relogin': 0, 'command_api_requests': 0, 'removed_through_reused_ticket': 0,
+           'removals_with_suspending_listeners': 0}
     st = {R['rid']: {'armed': [], 'removed_by': None, 't_dead': None, 'removals': [], 'results': 0, 'touched': False,
                      'tainted': False, 'ops': []} for R in reqs}
     live: set[int] = set()
@@ -1057,6 +1101,7 @@ def judge(run: _Run, out, res: dict) -> dict:
     race_orders: list[str] = []
     mixed_collision: list[int] = []
     relogged_n: list[int] = []
+    rml: dict[int, dict] = {}
 
     def T(t):
         return round(t - run.T0, 6)
@@ -1213,6 +1258,9 @@ def judge(run: _Run, out, res: dict) -> dict:
             st[rid]['armed'].append({'d': e['t'] + e['tau'], 'by': 'reschedule', 'end': None, 'n': e['n']})
         elif k == 'timer-skip':
             obs['timer_ops_skipped'] += 1
+        elif k == 'rml':
+            c = rml.setdefault(rid, {})
+            c[(e['l'], e['what'])] = c.get((e['l'], e['what']), 0) + 1
         elif k == 'relogged':
             relogged_n.append(e['n'])
             obs['requests_live_across_relogin'] += len(live)
@@ -1417,6 +1465,25 @@ def judge(run: _Run, out, res: dict) -> dict:
                                                 'stored_tickets_ok': fin['stored_tickets_ok']}))
     obs['wishlist_rounds'] = len(rounds)
 
+    # -- every listener of the removal event is entered once per removal and runs to completion ---------------
+    if sc.get('rm_listeners'):
+        for R in reqs:
+            nrem = len(st[R['rid']]['removals'])
+            if not nrem:
+                continue
+            obs['removals_with_suspending_listeners'] += nrem
+            c = rml.get(R['rid'], {})
+            counts = {f'{l}:{w}': c.get((l, w), 0) for l in (1, 2) for w in ('entered', 'finished', 'cancelled')}
+            path = 'timeout'       # the only path on which the library reports a removal
+            detail = {'request': brief(R), 'removal_events': nrem, 'first_listener_suspends': sc['rm_listeners'],
+                      'listener_counts': counts}
+            if c.get((1, 'cancelled'), 0) or c.get((1, 'finished'), 0) < c.get((1, 'entered'), 0):
+                V.append((f'removal-listener-aborted:{path}', detail))
+            if c.get((1, 'entered'), 0) < nrem or c.get((2, 'entered'), 0) < nrem:
+                V.append((f'removal-listener-skipped:{path}', detail))
+            elif c.get((1, 'entered'), 0) > nrem or c.get((2, 'entered'), 0) > nrem:
+                V.append((f'removal-listener-entered-twice:{path}', detail))
+
     # -- same-instant races: a step (or delivery) at the virtual instant of an armed deadline ---------
     tokens = []
     raced_steps: set = set()
@@ -1476,7 +1543,7 @@ def _trace(run: _Run, limit: int = 70, loop_exceptions=()) -> list:
     for e in run.log:
         d = {'t': round(e['t'] - run.T0, 6), 'it': e['it'], 'k': e['k'], 'registered': [tk for _, _, tk in e['reg']]}
         for k in ('rid', 'ticket', 'i', 'kind', 'by', 'outcome', 'tau', 'marker', 'result_ticket', 'op', 'why',
-                  'interval', 'stored', 'via', 'mode', 'label'):
+                  'interval', 'stored', 'via', 'mode', 'label', 'l', 'what'):
             if k in e:
                 d[k] = e[k]
         if 'rid' in d:
@@ -1517,11 +1584,14 @@ def run_case(params: dict) -> dict:
         runner.add_cover(res, 'step_kinds', stp['k'] + ':' + str(stp.get('op') or stp.get('type') or stp.get('ticket') or stp.get('by') or stp.get('mode') or '')
                          + ('/command' if stp.get('api') == 'command' else ''))
     runner.add_cover(res, 'request_timeouts', script['request_timeout'])
+    runner.add_cover(res, 'removal_listeners', script.get('rm_listeners') or 'none')
     if script['wishlist'] and any(s['k'] == 'wishlist' for s in script['steps']):
         runner.add_cover(res, 'wishlist_timeouts', script['wishlist_request_timeout'])
     if j['decisive']:
         rt = script['request_timeout']
         cls = f"rt{'0' if rt == 0 else ('30' if rt >= 30 else 's')}/w{script['wishlist_request_timeout']}/n{len(script['wishlist'])}"
+        if script.get('rm_listeners'):
+            cls += '/rl-' + script['rm_listeners']
         res['csigs'].append(cls + '|' + '>'.join(j['tokens']))
     res['sample'] = {'params': {k: v for k, v in params.items() if k != 'script'}, 'script': script,
                      'requests': j['requests'], 'trace': trace[:40], 'world': out.result}
